@@ -1,6 +1,7 @@
 package ref
 
 import (
+	"encoding/json"
 	"fmt"
 	"sort"
 	"strings"
@@ -610,4 +611,182 @@ func SortedKeys(m map[string]interface{}) []string {
 	}
 	sort.Strings(keys)
 	return keys
+}
+
+// ---------------------------------------------------------------------------------------
+// Serialisation of hunk sequences for replay files (values as harness JSON text, "" = void)
+// ---------------------------------------------------------------------------------------
+
+type wirePE struct {
+	Kind  string            `json:"kind"`
+	Key   string            `json:"key,omitempty"`
+	Index int               `json:"index,omitempty"`
+	Keys  map[string]string `json:"keys,omitempty"`
+}
+
+type wireHunk struct {
+	Path   []wirePE `json:"path"`
+	Before []string `json:"before,omitempty"`
+	Remove []string `json:"remove,omitempty"`
+	Add    []string `json:"add,omitempty"`
+	After  []string `json:"after,omitempty"`
+	Merge  bool     `json:"merge,omitempty"`
+}
+
+func encVals(vs []V) []string {
+	if vs == nil {
+		return nil
+	}
+	out := make([]string, len(vs))
+	for i, v := range vs {
+		out[i] = JSON(v)
+	}
+	return out
+}
+
+func decVals(ss []string) []V {
+	if ss == nil {
+		return nil
+	}
+	out := make([]V, len(ss))
+	for i, s := range ss {
+		out[i] = MustParse(s)
+	}
+	return out
+}
+
+// EncodeHunks serialises a hunk sequence.
+func EncodeHunks(hs []Hunk) string {
+	w := make([]wireHunk, len(hs))
+	for i, h := range hs {
+		wh := wireHunk{Before: encVals(h.Before), Remove: encVals(h.Remove), Add: encVals(h.Add), After: encVals(h.After), Merge: h.Merge}
+		wh.Path = make([]wirePE, len(h.Path))
+		for j, pe := range h.Path {
+			wp := wirePE{Kind: pe.Kind, Key: pe.Key, Index: pe.Index}
+			if pe.Keys != nil {
+				wp.Keys = map[string]string{}
+				for k, v := range pe.Keys {
+					wp.Keys[k] = JSON(v)
+				}
+			}
+			wh.Path[j] = wp
+		}
+		w[i] = wh
+	}
+	b, err := json.Marshal(w)
+	if err != nil {
+		panic(err)
+	}
+	return string(b)
+}
+
+// DecodeHunks is the inverse of EncodeHunks.
+func DecodeHunks(s string) []Hunk {
+	var w []wireHunk
+	if err := json.Unmarshal([]byte(s), &w); err != nil {
+		panic(fmt.Sprintf("DecodeHunks: %v", err))
+	}
+	hs := make([]Hunk, len(w))
+	for i, wh := range w {
+		h := Hunk{Before: decVals(wh.Before), Remove: decVals(wh.Remove), Add: decVals(wh.Add), After: decVals(wh.After), Merge: wh.Merge}
+		h.Path = make([]PE, len(wh.Path))
+		for j, wp := range wh.Path {
+			pe := PE{Kind: wp.Kind, Key: wp.Key, Index: wp.Index}
+			if wp.Keys != nil {
+				pe.Keys = map[string]V{}
+				for k, v := range wp.Keys {
+					pe.Keys[k] = MustParse(v)
+				}
+			}
+			h.Path[j] = pe
+		}
+		hs[i] = h
+	}
+	return hs
+}
+
+// Witness builds a document on which the (strict) hunk applies, or ok=false.
+func Witness(h Hunk) (V, bool) {
+	return witness(h, h.Path)
+}
+
+func witness(h Hunk, path []PE) (V, bool) {
+	if len(path) == 0 {
+		if len(h.Remove) == 0 {
+			return Void{}, true
+		}
+		return Clone(h.Remove[0]), true
+	}
+	pe, rest := path[0], path[1:]
+	switch pe.Kind {
+	case "key":
+		sub, ok := witness(h, rest)
+		if !ok {
+			return nil, false
+		}
+		o := map[string]interface{}{}
+		if !IsVoid(sub) {
+			o[pe.Key] = sub
+		}
+		return o, true
+	case "index":
+		if pe.Index < 0 {
+			return nil, false
+		}
+		if len(rest) > 0 {
+			sub, ok := witness(h, rest)
+			if !ok || IsVoid(sub) {
+				return nil, false
+			}
+			a := []interface{}{}
+			for i := 0; i < pe.Index; i++ {
+				a = append(a, 0.0)
+			}
+			return append(a, sub), true
+		}
+		a := []interface{}{}
+		i := pe.Index
+		if len(h.Before) == 1 && IsVoid(h.Before[0]) && i != 0 {
+			return nil, false
+		}
+		if len(h.Before) == 1 && !IsVoid(h.Before[0]) && i == 0 {
+			return nil, false
+		}
+		for j := 0; j < i; j++ {
+			if j == i-1 && len(h.Before) == 1 && !IsVoid(h.Before[0]) {
+				a = append(a, Clone(h.Before[0]))
+			} else {
+				a = append(a, 0.0)
+			}
+		}
+		for _, r := range h.Remove {
+			a = append(a, Clone(r))
+		}
+		if len(h.After) == 1 && !IsVoid(h.After[0]) {
+			a = append(a, Clone(h.After[0]))
+		} else if len(h.After) == 0 {
+			a = append(a, 0.0)
+		}
+		return a, true
+	case "set", "multiset":
+		a := []interface{}{}
+		for _, r := range h.Remove {
+			a = append(a, Clone(r))
+		}
+		return a, true
+	case "setkeys":
+		sub, ok := witness(h, rest)
+		if !ok {
+			return nil, false
+		}
+		o, isObj := sub.(map[string]interface{})
+		if !isObj {
+			return nil, false
+		}
+		for k, v := range pe.Keys {
+			o[k] = Clone(v)
+		}
+		return []interface{}{o}, true
+	}
+	return nil, false
 }
